@@ -1,4 +1,6 @@
 ENGINES = [
+ {"name": "schedsim", "path": "schedsim/", "serves_properties": ["C18"],
+  "kind_free_text": "deterministic scheduler simulation: real caller goroutines of an AST-instrumented scratch copy of the library, serialised by a futex baton that is invisible to the race detector; a seeded scheduler (gap / site-targeted / PCT) decides every context switch; replay = stored switch log; ddmin over operations and switches"},
  {"name": "chansim", "path": "chansim/", "serves_properties": ["C04", "C05", "C10", "C11"],
   "kind_free_text": "sender -> simulated faulty medium -> real receiver; seeded and enumerated fault plans within the budget the property promises to tolerate; independent reference models (GF/RS, symbol layouts, check digits) as oracles; fault-free control and fault-injecting configuration reported separately"},
  {"name": "histsim", "path": "histsim/", "serves_properties": ["C16", "C17"],
@@ -16,10 +18,14 @@ chk("C04", "chansim", "fault_enumeration",
     "Trusted: the harness's table-free GF(2^m) arithmetic and long-division encoder (checked at run time for primitivity and against the slow multiplication). The exhaustive field comparison is differential enumeration rather than simulation and is labelled so in the evidence.",
     "fault enumeration on a simulated codeword channel (real encoder/decoder, reference GF model)", "DESIGN.md section 5, section 7 C04")
 
+chk("C18", "schedsim", "exploration",
+    "K caller goroutines (2..64) with private instances run whole-API scripts over every symbology on an instrumented copy of /repo's working tree; one seed fixes every context switch (1443 yield sites). Oracles: (a) the Go race detector, which does not see the scheduler and therefore judges all cross-task conflicting accesses the library does not order; (b) every call's result equals the result of the same script run alone; (c) while the library has no synchronisation, everything reachable from its 121 package-level variables is unchanged by the concurrent phase. Sampled schedules: evidence, not proof.",
+    "Trusted: Go's race detector; linux/amd64 raw futex hand-over (self-tested on every invocation: two serialised conflicting writes must be reported, else exit 2); go/ast rewriter (a file it cannot parse or a copy that does not compile is exit 2). Races only between two fmt error-formatting paths can be hidden by sync.Pool edges (DESIGN.md 4.5).",
+    "deterministic scheduler simulation (seeded interleavings of real goroutines) + race detector + solo-equality + shared-state immutability", "DESIGN.md section 4, section 7 C18")
+
 PENDING.update({
  "C05": "claimed by the design (chansim) but its check is not built yet at this commit",
  "C10": "claimed by the design (chansim) but its check is not built yet at this commit",
  "C11": "claimed by the design (chansim) but its check is not built yet at this commit",
  "C17": "claimed by the design (histsim) but its check is not built yet at this commit",
- "C18": "claimed by the design (schedsim) but its check is not built yet at this commit",
 })
